@@ -348,9 +348,15 @@ class Interp:
             opname = name[len("torch."):]
             opname = opname.replace("nn.functional.", "").replace("autograd.", "autograd_")
             if opname in ("as_tensor",) and args and isinstance(args[0], Term) and not kwargs:
+                if isinstance(args[0], Sym) and "float" in args[0].tags:
+                    # a Python float turned into a 0-dim tensor of the DEFAULT dtype: same value for the algebra, but the value is rounded to
+                    # float32 before it meets float64 data - kept visible for the precision rule (C07.R7)
+                    self.ev("lossy_scalar", value=args[0], how="torch.as_tensor(<python float>) without dtype", node=node)
                 return args[0]
             if opname == "Size":
                 return tuple(args[0])
+            if opname == "tensor" and args and isinstance(args[0], Sym) and ("float" in args[0].tags or "list" in args[0].tags) and "dtype" not in kwargs:
+                self.ev("lossy_scalar", value=args[0], how="torch.tensor(<python float>) without dtype", node=node)
             if opname in ("set_grad_enabled", "enable_grad", "no_grad"):
                 return Obj("torch.gradmode", opname, {"mode": opname, "arg": args[0] if args else None})
             return Op(opname, args, kwargs)
@@ -1101,7 +1107,15 @@ class Interp:
         if name == "map":
             f, seq = a[0], a[1]
             if isinstance(seq, (list, tuple)):
-                return [self.call_value(f, [x], {}, node) if not (isinstance(f, ExtRef) and f.name == "torch.as_tensor" and isinstance(x, Term)) else x for x in seq]
+                out_ = []
+                for x in seq:
+                    if isinstance(f, ExtRef) and f.name == "torch.as_tensor" and isinstance(x, Term):
+                        if isinstance(x, Sym) and "float" in x.tags:
+                            self.ev("lossy_scalar", value=x, how="torch.as_tensor(<python float>) without dtype", node=node)
+                        out_.append(x)
+                    else:
+                        out_.append(self.call_value(f, [x], {}, node))
+                return out_
             if isinstance(seq, (SymList, MapList)):
                 elem = seq.elem if isinstance(seq, SymList) else seq.body
                 return MapList(seq, elem, self.call_value(f, [elem], {}, node))
